@@ -399,3 +399,47 @@ Proof.
       + exact IH. }
   rewrite Hfq. now rewrite (trim_ows s1 m s2 S1 S2 M1 M2).
 Qed.
+
+(* ---- determinism (after fix F10): for EVERY registry, Produces list, default and Accept header - inside the premise or
+   not, with unparsable q values or not - the entity writer has at most one possible answer *)
+Lemma accessor_keys_single reg m : length (accessor_keys reg m) <= 1.
+Proof.
+  unfold accessor_keys. destruct (mem m reg); [cbn; auto|].
+  destruct (sort_strs (filter (fun k => contains m k) reg)); cbn; auto.
+Qed.
+
+Lemma first_nonempty_single {A} (l : list (list A)) :
+  (forall x, In x l -> length x <= 1) -> length (first_nonempty l) <= 1.
+Proof.
+  induction l as [|x l IH]; intros H; cbn; [auto|].
+  destruct x as [|a x]; [apply IH; intros y Hy; apply H; now right|].
+  apply H. now left.
+Qed.
+
+Lemma choose_single reg produces media : length (choose reg produces media) <= 1.
+Proof.
+  unfold choose.
+  assert (H1 : length (first_nonempty (map (fun p => if str_eqb p media then accessor_keys reg media else []) produces)) <= 1).
+  { apply first_nonempty_single. intros x Hx. apply in_map_iff in Hx as (p & <- & _).
+    destruct (str_eqb p media); [apply accessor_keys_single|cbn; auto]. }
+  destruct (first_nonempty (map (fun p => if str_eqb p media then accessor_keys reg media else []) produces)) as [|a l] eqn:E;
+    [|exact H1].
+  destruct (str_eqb media (L "*/*")); [|cbn; auto].
+  apply first_nonempty_single. intros x Hx. apply in_map_iff in Hx as (p & <- & _). apply accessor_keys_single.
+Qed.
+
+Theorem entity_writer_single qrank reg produces dflt accept0 :
+  length (entity_writer qrank reg produces dflt accept0) <= 1.
+Proof.
+  unfold entity_writer.
+  set (accept := match accept0 with [] => L "*/*" | _ => accept0 end).
+  assert (H1 : length (first_nonempty (map (fun r => choose reg produces (fst r)) (sorted_mimes qrank accept))) <= 1).
+  { apply first_nonempty_single. intros x Hx. apply in_map_iff in Hx as (r & <- & _). apply choose_single. }
+  destruct (first_nonempty (map (fun r => choose reg produces (fst r)) (sorted_mimes qrank accept))) as [|a l] eqn:E; [|exact H1].
+  pose proof (accessor_keys_single reg accept0) as H2.
+  destruct (accessor_keys reg accept0) as [|b l2] eqn:E2; [|exact H2].
+  destruct (str_eqb dflt MIME_JSON); [apply accessor_keys_single|].
+  destruct (str_eqb dflt MIME_XML); [apply accessor_keys_single|].
+  destruct (str_eqb dflt MIME_ZIP); [apply accessor_keys_single|].
+  apply first_nonempty_single. intros x Hx. apply in_map_iff in Hx as (p & <- & _). apply accessor_keys_single.
+Qed.
